@@ -991,13 +991,15 @@ class EnhancedBD(BDWithExtIntBase):
             self._metric_func_extra_args = {}
 
         elif metric == 'naive':
-            self._metric_func_name = 'naive'
-            self._metric_func = None
+            # Note: the arguments are checked before anything is changed in
+            # the object (a rejected call must leave it as it was)
             if 'num_streams' not in metric_func_extra_args_dict.keys():
                 msg = ("The 'naive' metric requires that "
                        "metric_func_extra_args_dict is provided and has "
                        "the 'num_streams' key")
                 raise AttributeError(msg)
+            self._metric_func_name = 'naive'
+            self._metric_func = None
 
             # Set self._metric_func_extra_args as a dictionary containing
             # the 'num_stream' key (and value) in
@@ -1009,13 +1011,13 @@ class EnhancedBD(BDWithExtIntBase):
             self._metric_func_extra_args = metric_func_extra_args_dict
 
         elif metric == 'fixed':
-            self._metric_func_name = 'fixed'
-            self._metric_func = None
             if 'num_streams' not in metric_func_extra_args_dict.keys():
                 msg = ("The 'fixed' metric requires that "
                        "metric_func_extra_args_dict is provided and has "
                        "the 'num_streams' key")
                 raise AttributeError(msg)  # pragma: no cover
+            self._metric_func_name = 'fixed'
+            self._metric_func = None
 
             # Set self._metric_func_extra_args as a dictionary containing
             # the 'num_stream' key (and value) in
@@ -1026,14 +1028,14 @@ class EnhancedBD(BDWithExtIntBase):
             }
 
         elif metric == 'effective_throughput':
-            self._metric_func_name = 'effective_throughput'
-            self._metric_func = _calc_effective_throughput
             keys = metric_func_extra_args_dict.keys()
             if ('modulator' not in keys) or ('packet_length' not in keys):
                 msg = ("The 'effective_throughput' metric requires that "
                        "metric_func_extra_args_dict is provided and has "
                        "the 'modulator' and package_length' keys")
                 raise AttributeError(msg)
+            self._metric_func_name = 'effective_throughput'
+            self._metric_func = _calc_effective_throughput
 
             # Set self._metric_func_extra_args as a dictionary containing
             # the 'modulator' and 'packet_length' keys (and values) in
